@@ -489,6 +489,34 @@ def bounded_native(ck):
         except Exception as ex:
             fails.append({"obligation": "bounded.tau_energy", "clause": "explicit random numbers with a mix of in-range and out-of-range angles", "input": {"version": ver, "beta": beta.tolist(), "log_e_nu": logE.tolist(), "u": u.tolist()},
                           "observed": "raised %r" % ex})
+        # batches without a single in-range angle: below-minimum angles still take the minimum-angle distribution, above-maximum ones the floor
+        for bset in ([0.0005, 0.001, 0.0017], [0.0005, 1.3], [0.0009]):
+            bset = np.array([x if x < 1.0 else float(np.nextafter(nt.beta_max, 9)) for x in bset])
+            le, uu = np.linspace(7.2, 10.4, len(bset)), np.linspace(0.21, 0.83, len(bset))
+            n += 1
+            try:
+                got = t.tau_energy(bset.copy(), le.copy(), uu.copy())
+                want = spec_tau_energy({"tables": nt, "beta": bset, "logE": le, "u": uu})
+                if np.shape(got) != np.shape(want) or not np.allclose(got, want, rtol=1e-9):
+                    fails.append({"obligation": "bounded.tau_energy", "clause": "a batch without any in-range angle: angles below the table take the minimum-angle distribution, angles above it the floor -- whatever else is in the batch",
+                                  "input": {"version": ver, "beta": bset.tolist(), "log_e_nu": le.tolist(), "u": uu.tolist()}, "observed": {"code": np.asarray(got, float).tolist(), "spec": np.asarray(want, float).tolist()}})
+            except Exception as ex:
+                fails.append({"obligation": "bounded.tau_energy", "clause": "a batch without any in-range angle is evaluated", "input": {"version": ver, "beta": bset.tolist()}, "observed": "raised %r" % ex})
+        # the stored tau energy of the whole stage is tau_energy of every event, with the same random stream (also where the exit probability is at its floor)
+        bb = np.array([np.radians(40.0), 0.3, np.radians(41.5), 0.05, np.radians(38.0), 0.6])
+        le = np.array([11.0, 8.5, 11.5, 9.0, 10.75, 7.0])
+        n += 1
+        try:
+            np.random.seed(ck.seed + 21)
+            col = np.asarray(t(bb.copy(), le.copy())[2], dtype=float)
+            np.random.seed(ck.seed + 21)
+            direct = np.asarray(t.tau_energy(bb.copy(), le.copy()), dtype=float)
+            if col.shape != direct.shape or not np.array_equal(col, direct):
+                i = int(np.argmax(col != direct)) if col.shape == direct.shape else 0
+                fails.append({"obligation": "bounded.call", "clause": "the tauEnergy column of Taus.__call__ is tau_energy(beta, log_e_nu) of every event under the same random stream (no event is given an energy by another route)",
+                              "input": {"version": ver, "beta": float(bb[i]), "log_e_nu": float(le[i]), "event": i, "seed": ck.seed + 21}, "observed": {"column": float(col[i]) if col.shape == direct.shape else str(col.shape), "tau_energy": float(direct[i])}})
+        except Exception as ex:
+            fails.append({"obligation": "bounded.call", "clause": "Taus.__call__ evaluates", "input": {"version": ver}, "observed": "raised %r" % ex})
         for ee in (5.999999, 12.000001, 13.0):
             for bb in (0.0005, 0.3):
                 n += 1
